@@ -96,7 +96,8 @@ func Verify(
 			return fmt.Errorf("authentication failed")
 		}
 
-		if !urlMatches(req.URL, auth.URI, req.Method == base.Setup) {
+		// a request without URL (OPTIONS *) has nothing the digest URI can be compared with
+		if req.URL == nil || !urlMatches(req.URL, auth.URI, req.Method == base.Setup) {
 			return fmt.Errorf("wrong URL")
 		}
 
